@@ -4,11 +4,12 @@ from vlib.core import Case, hx
 from vlib import bip39
 
 ID = "C02"
+NEEDS_CLI = True
 THOROUGH_ROUNDS = 1
 RULE = ("op mn.seed <phrase> <passphrase>: all five phrase lengths, layout variants of the phrase, passphrases: empty, ASCII, "
         "precomposed/decomposed pairs, full-width/ASCII pairs, ligatures, Hangul, combining marks in non-canonical order, astral plane; "
         "every code point with an NFKD mapping or non-zero combining class alone between ASCII letters (all below U+0250, stratified sample above; thorough: all); code points restricted to those assigned in Unicode 14.0 (python unicodedata) — the crate ships Unicode 16 tables; "
-        "NFKD-equivalent pairs must give equal seeds (extra check); the repo's four seed vectors; "
+        "NFKD-equivalent pairs must give equal seeds (extra check); the repo's four seed vectors; passphrases with leading/trailing (Unicode) white space; a sample of the pairs re-run through `export --password` (flag and environment) so that the wallet the commands build is covered too; "
         "non-trivial = distinct (words, passphrase); judge = BIP-39 PBKDF2 from the standard with the NFKD table of python's unicodedata")
 EXHAUSTIVE_SWEEPS = {"quick": [], "thorough": []}
 ASSUMPTIONS = ["NFKD table: python unicodedata 14.0 vs unicode-normalization 16.0, equal on code points assigned in 14.0 (normalisation stability policy)"]
@@ -95,7 +96,20 @@ def gen(rng, tier):
         cases.append(Case("mn.seed %s %s" % (hx(" ".join(ws12)), hx("x" + chr(cp))), tags=("single-char", "hangul")))
     for pw in ["5µm²", "a b", "½ ¾ ¼", "ª º ¹ ³", "¨ ¯ ´ ¸", "plain ascii", "ÿ", "¿¡"]:
         cases.append(Case("mn.seed %s %s" % (hx(" ".join(ws12)), hx(pw)), tags=("latin1",)))
+    # passphrases that begin / end with (Unicode) white space, or are nothing else: part of the salt like any other character
+    for pw in ["TREZOR ", " TREZOR", " ", "  ", "\t", "pass\n", "\r\npass", "pass\u3000", "\u00a0pass", "\u2003x\u2003", "x\u200a", "\u0085y", "\u2028z", "\x0bq\x0c"]:
+        cases.append(Case("mn.seed %s %s" % (hx(" ".join(ws12)), hx(pw)), tags=("edge-whitespace",)))
+    # the same (phrase, passphrase) pairs through the command line: the key exported for them must be the one derived
+    # from this seed (model: Cli.exportKey; judge: BIP-39 seed + BIP-32 from the standards)
+    from vlib import routes
+    lib = [c for c in cases if "edge-whitespace" in c.tags] + rng.sample([c for c in cases if c.tags[0] in ("random", "nfkd-equivalent", "single-char", "latin1")], 30 if tier == "quick" else 150)
+    cases += routes.add_routes(lib, rng, len(lib), "quick")
     return cases
+
+
+def run_cli(case):
+    from vlib import cli
+    return cli.run_cli(case)
 
 
 def extra_checks(cases, impl, model, verdicts, tier, rng, cov):
